@@ -12,6 +12,7 @@ from .. import core, model as M, stategraph as SG, binding as B, selftest
 FLAG_SIGNS = 1      # also classify with sigma = 1..1 and sigma = index mod 2^n
 FLAG_PRES1 = 2      # all presentations within one move
 FLAG_PRESALL = 4    # all ordered generating sets
+FLAG_STAR = 8       # dense presentations: all generators multiplied by one of them; cumulative products
 
 
 def classify_gens(gens, n):
@@ -47,6 +48,8 @@ def _work(payload):
                 alts += M.presentations(g.gens(i, int(i) % (1 << n)), "all")
             elif flags & FLAG_PRES1:
                 alts += M.presentations(g.gens(i, int(i) % (1 << n)), 1)[1:]
+            if flags & FLAG_STAR:
+                alts += M.presentations(g.gens(i, (int(i) * 5 + 3) % (1 << n)), "star")
             for gens in alts:
                 variants += 1
                 try:
@@ -160,6 +163,18 @@ def judge_one_class(n, cid, comp_expected=None):
     lib = impl.class_id(impl.Stabilizer(graph))
     if lib != cid:
         return "determine_lc_class(representative graph) = %d" % lib
+    # every sequence of up to three queries on ONE class object answers like a fresh object does
+    import itertools
+    ops = {"id": lambda o: o.id(), "graph": lambda o: np.asarray(o.get_graph().adjacency_matrix).tolist(),
+           "str": lambda o: str(o), "eq": lambda o: bool(o == cls(cid))}
+    ref = {k: f(cls(cid)) for k, f in ops.items()}
+    for seq in itertools.product(sorted(ops), repeat=3):
+        o = cls(cid)
+        for k, name in enumerate(seq):
+            got = ops[name](o)
+            if got != ref[name]:
+                return "on one LCClass%d(%d) object the queries %s answer %r for the last one; a fresh object answers %r" % (
+                    n, cid, " ".join(seq[:k + 1]), got, ref[name])
     return None
 
 
@@ -182,14 +197,14 @@ def check(ctx):
             idxs, ids = explore(ctx, n, np.arange(g.N), FLAG_SIGNS | FLAG_PRESALL, "all groups, all generating sets, 2 extra sign vectors")
             complete = True
         elif n == 4:
-            idxs, ids = explore(ctx, n, np.arange(g.N), FLAG_SIGNS | FLAG_PRES1, "all groups, presentations within one move, 2 extra sign vectors")
+            idxs, ids = explore(ctx, n, np.arange(g.N), FLAG_SIGNS | FLAG_PRES1 | FLAG_STAR, "all groups, presentations within one move + dense presentations, 2 extra sign vectors")
             complete = True
         elif n == 5:
             if quick:
-                idxs, ids = explore(ctx, n, np.arange(g.N), 0, "all groups, canonical generators")
+                idxs, ids = explore(ctx, n, np.arange(g.N), FLAG_STAR, "all groups, canonical generators + dense presentations")
                 explore(ctx, n, np.arange(0, g.N, 8), FLAG_SIGNS | FLAG_PRES1, "every 8th group: presentations within one move + signs")
             else:
-                idxs, ids = explore(ctx, n, np.arange(g.N), FLAG_SIGNS | FLAG_PRES1, "all groups, presentations within one move, 2 extra sign vectors")
+                idxs, ids = explore(ctx, n, np.arange(g.N), FLAG_SIGNS | FLAG_PRES1 | FLAG_STAR, "all groups, presentations within one move + dense presentations, 2 extra sign vectors")
             complete = True
         else:
             if quick:
@@ -207,12 +222,13 @@ def check(ctx):
                 sel.update(range(0, g.N, 16))
                 idxs, ids = explore(ctx, n, np.array(sorted(sel)), 0,
                                     "all 32768 graph states + first 256 members of each of the 760 components + every 16th state (residue class R16)")
-                explore(ctx, n, g.first_of_component(), FLAG_SIGNS | FLAG_PRES1, "first member of every component: presentations + signs")
+                explore(ctx, n, g.first_of_component(), FLAG_SIGNS | FLAG_PRES1 | FLAG_STAR, "first member of every component: presentations + signs")
+                explore(ctx, n, np.arange(0, g.N, 512), FLAG_STAR, "every 512th group: dense presentations")
                 complete = False
                 ctx.count("transitions", len(idxs) * 12)
             else:
                 idxs, ids = explore(ctx, n, np.arange(g.N), 0, "ALL 4922775 groups, canonical generators")
-                explore(ctx, n, np.arange(0, g.N, 64), FLAG_SIGNS | FLAG_PRES1, "every 64th group: presentations within one move + signs")
+                explore(ctx, n, np.arange(0, g.N, 64), FLAG_SIGNS | FLAG_PRES1 | FLAG_STAR, "every 64th group: presentations within one move + dense presentations + signs")
                 complete = True
         id_of_comp = judge_partition(ctx, n, idxs, ids, complete)
         judge_class_objects(ctx, n, id_of_comp)
